@@ -181,6 +181,54 @@ def _run_locate_grid(case):
             "outcome": "ok" if not v else "violation:" + "+".join(sorted({x["check"] for x in v}))}
 
 
+def _locate_1d_cases(tier):
+    """line meshes (main dimension 1) of every order, along x and placed generically in space"""
+    return [{"kind": "locate_1d", "elemType": et, "map": mp} for et in Z.TYPES_1D for mp in ("identity", "rot")]
+
+
+def _run_locate_1d(case):
+    et, mp = case["elemType"], case["map"]
+    key = dict(kind="locate_1d", elemType=et, map=mp)
+    zm = Z.template_1d(et, n=3, graded=True, L=1.3)
+    if mp == "rot":
+        zm = zm.mapped(Z.rot3([0.3, -0.5, 1.0], 0.8), np.array([0.2, -0.1, 0.3]))
+    mesh = zm.build()
+    coord = zm.coords
+    con = zm.groups[et]
+    order = {"SEG2": 1, "SEG3": 2, "SEG4": 3, "SEG5": 4}[et]
+    f = lambda X: 1.0 + 0.4 * X[:, 0] - 0.3 * X[:, 1] + 0.2 * X[:, 2] + (0.5 * (X[:, 0] + 0.3 * X[:, 1] - 0.2 * X[:, 2])) ** order
+    dofs = f(coord)
+    pts, where = [], []
+    for e in range(con.shape[0]):
+        a, b = coord[con[e, 0]], coord[con[e, 1]]  # the two vertices come first in the connectivity
+        for t in (0.0, 0.07, 0.35, 0.5, 0.66, 0.8, 0.93, 1.0):
+            pts.append(a + t * (b - a))
+            where.append((e, t))
+    pts = np.array(pts)
+    want = f(pts)
+    sc = float(np.abs(want).max())
+    v, obs, ntr = [], [], 0
+    for name, batches in (("one_by_one", [pts[i:i + 1] for i in range(len(pts))]), ("mesh", [pts])):
+        got = []
+        try:
+            for P in batches:
+                got.append(np.asarray(mesh.Evaluate_dofsValues_at_coordinates(P.copy(), dofs), dtype=float).ravel())
+                ntr += 1
+        except Exception as err:
+            v.append(viol("evaluate_raises", f"{et} line mesh ({mp}), batch {name}: {type(err).__name__}: {str(err)[:160]}", batch=name, **key))
+            continue
+        got = np.concatenate(got)
+        obs.append(np.round(got, 6))
+        err = np.abs(got - want)
+        if err.max() > TOL_EVAL * sc:
+            i = int(np.argmax(err))
+            lost = int(np.sum(got == 0.0))
+            v.append(viol("not_located" if lost else "wrong_value", f"{et} line mesh ({mp}), batch {name}: {lost} of {len(pts)} points on the mesh are not located; worst: element "
+                                                                     f"{where[i][0]}, t = {where[i][1]}: got {got[i]!r}, exact {want[i]!r}", batch=name, **key))
+    return {"violations": v, "fingerprint": fp("loc1d", et, mp, *obs), "nontrivial": True, "transitions": ntr,
+            "outcome": "ok" if not v else "violation:" + "+".join(sorted({x["check"] for x in v}))}
+
+
 def _run_locate_mixed(case):
     types, mp = case["types"], case["map"]
     d = Z.dim_of(types[0])
@@ -259,6 +307,7 @@ def cases(tier, seed):
     out += _locate_meshes(tier)
     out += _locate_mixed_cases(tier)
     out += _locate_grid_cases(tier)
+    out += _locate_1d_cases(tier)
     return out
 
 
